@@ -359,6 +359,80 @@ def rows_lost(before, after):
     return out
 
 
+def rows_vs_reference(history, v0, v1, db_before, db_after):
+    """The rows an app's tables held before a run (at version v0) against what they hold
+    after it (at version v1), judged by the reference data-flow of the evolutions
+    v0+1..v1 applied ONE AT A TIME (mutseq.expected_rows): whichever path brought the
+    database here, surviving cells are unchanged, a deleted-and-re-added column starts
+    over, added columns hold their initial value.  Returns a list of differences."""
+    from ..absmodel import as_dict
+    from .mutseq import expected_rows, rows_vs_expected
+    if not db_before or not db_after or v0 < 0 or v1 <= v0:
+        return []
+    names = history.names
+    start_sig = history.versions[v0]
+    start_rows = {}
+    for mn, ms in start_sig.items():
+        table = names.table(ms['table']) if ms['table'].startswith('t_') else ms['table']
+        rows = []
+        for r in (db_before['tables'].get(table) or {}).get('rows') or []:
+            row = {}
+            for fn, fs in ms['fields'].items():
+                if fs['ftype'] == 'M2M':
+                    continue
+                col = as_dict(fs['attrs']).get('db_column') or (
+                    names.field(fn) + ('_id' if fs['ftype'] in ('FK', 'O2O') else ''))
+                row[fn] = r.get(col)
+            rows.append(row)
+        start_rows[mn] = rows
+    exp, final_sig = start_rows, start_sig
+    try:
+        for i in range(v0 + 1, v1 + 1):
+            exp, final_sig = expected_rows(final_sig, history.evolutions[i]['mutations'], names, exp)
+            # models that appear at version i as NEW models (no evolution creates them) exist,
+            # empty, from that version on; evolutions of later versions may target them
+            for mn, ms in (history.intro.get(i) or {}).items():
+                final_sig = dict(final_sig)
+                final_sig[mn] = ms
+                exp = dict(exp)
+                exp[mn] = []
+    except Exception as e:
+        import traceback
+        return [{'kind': 'reference-error', 'error': '%s: %s' % (type(e).__name__, e),
+                 'tb': traceback.format_exc(limit=3)}]
+    # only rows that existed before the run (tables that were empty then have nothing to keep)
+    return rows_vs_expected(db_after, exp, final_sig, names)
+
+
+def _as_created(history, i, mn):
+    """Signature of model `mn` as it was when it appeared (before evolution i's own changes to
+    it): the version-i signature minus the fields evolution i adds to it."""
+    import copy as _copy
+    ms = _copy.deepcopy(history.versions[i][mn])
+    for mu in history.evolutions[i]['mutations']:
+        if mu['k'] == 'Add' and mu['m'] == mn:
+            ms['fields'].pop(mu['f'], None)
+    return ms
+
+
+def readded_columns(history, v0, v1):
+    """(table, column) pairs deleted by the evolutions v0+1..v1: such a column may be back
+    under the same name with other values."""
+    out = set()
+    if v0 < 0:
+        return out
+    names = history.names
+    for i in range(v0 + 1, v1 + 1):
+        for mu in history.evolutions[i]['mutations']:
+            if mu['k'] == 'Del':
+                for v in range(0, len(history.versions)):
+                    ms = history.versions[v].get(mu['m'])
+                    if ms:
+                        out.add((names.table(ms['table']) if ms['table'].startswith('t_') else ms['table'],
+                                 names.field(mu['f'])))
+    return out
+
+
 def execute_history(hist, histories, oracles, keep_results=False, with_rows=False):
     """Replay one TLC history on a real project.  Returns a list of run
     records: dict(request, result, pre, post, code, trace, fault)."""
@@ -456,7 +530,18 @@ def execute_history(hist, histories, oracles, keep_results=False, with_rows=Fals
                 if with_rows:
                     # rows present before this run must have survived it; then give every
                     # still-empty table its rows for the runs to come
-                    rec['rows_lost'] = rows_lost(rows_before, rec['db']) if rows_before else []
+                    skip = set()
+                    for a_, h_ in histories.items():
+                        skip |= readded_columns(h_, state['tab'].get(a_, -1), code[a_])
+                    rec['rows_lost'] = [x for x in (rows_lost(rows_before, rec['db']) if rows_before else [])
+                                        if (x.get('table'), x.get('column')) not in skip]
+                    rec['rows_diff'] = []
+                    if res['outcome'] == 'ok' and rows_before:
+                        for a_, h_ in histories.items():
+                            v0_ = state['tab'].get(a_, -1)
+                            if v0_ >= 0 and post['tab'].get(a_) == code[a_] and code[a_] > v0_:
+                                rec['rows_diff'] += [dict(d, app=a_) for d in
+                                                     rows_vs_reference(h_, v0_, code[a_], rows_before, rec['db'])]
                     if res['outcome'] == 'ok':
                         project.run({'action': 'insert_rows'})
                         snap = project.run({'action': 'snapshot'})
